@@ -69,6 +69,17 @@ def cases(tier, seed):
             add(e, d, ('per-item-number',))
             if tier != 'quick' or rng.random() < 0.3:
                 add(e + '[%s]' % rng.choice(ppreds + preds), d, ('per-item-number', 'stacked'))
+    # a predicate on a variable ($, $$, named) as FIRST step of a longer path, on array-rooted and object-rooted
+    # documents: the variable is ONE context item, whatever the current context is
+    adocs = [[{'id': 1, 'tag': 'a'}, {'id': 2, 'tag': 'b'}, {'id': 3, 'tag': 'c'}], [{'id': 1, 'tag': 'a'}], [], [[{'id': 1, 'tag': 'a'}, {'id': 2, 'tag': 'b'}]],
+             {'list': [{'id': 1, 'tag': 'a'}, {'id': 2, 'tag': 'b'}, {'id': 3, 'tag': 'c'}], 'id': 9, 'tag': 'root'}, [1, 2, 3], [[1, 2], [3]]]
+    vpreds = ['0', '1', '-1', 'id > 1', 'id = 2', 'tag', 'true', 'false', '[0, 2]', '$ > 1', 'id', '1.5', 'nothing', '$count($) > 1']
+    vtails = ['', '.tag', '.id', '.tag[0]', '[0]', '.$string()', '.{"t": tag}', '.[tag]', '.id[$ > 1]', '.(tag)']
+    vheads = [('$$', '%s'), ('$', '%s'), ('$v', '($v := $; %s)'), ('$w', '($w := $$; %s)'), ('$l', '($l := list; %s)'), ('$$.list', '%s'), ('$$', 'list.(%s)'), ('$$', '$map($, function($i){%s})'), ('$v', '($v := $; list.(%s))'), ('$v', '($v := $; $.(%s))')]
+    for (h, wrap), pr, tl in itertools.product(vheads, vpreds, vtails):
+        if tier == 'quick' and rng.random() < 0.55:
+            continue
+        add(wrap % ('%s[%s]%s' % (h, pr, tl)), rng.choice(adocs), ('var-head',))
     # stacked predicates (<= 3), on name steps and on other heads
     for i in range(1200 if tier == 'quick' else 60000):
         h = rng.choice(heads)
@@ -85,7 +96,7 @@ def cases(tier, seed):
 def run(tier, seed, replay=None):
     ck = Check('C02', tier, seed, '', 'exhaustive array lengths 0..5 x positions -7..7 step 0.5 (as literal, computed, index array, '
                'taken from the document, inside a path, on a parenthesised path, on a constructor); every predicate kind on every kind of head; '
-               'predicates whose number depends on the context item (member values, $, conditionals) on 9 heads x 10 documents; stacked predicates <= 3; distinct = distinct (expression, document); non-trivial = compiles and model has a verdict')
+               'predicates on variables ($, $$, named) as first step of longer paths on array- and object-rooted documents (10 heads x 14 predicates x 10 continuations); predicates whose number depends on the context item (member values, $, conditionals) on 9 heads x 10 documents; stacked predicates <= 3; distinct = distinct (expression, document); non-trivial = compiles and model has a verdict')
     if not ck.build():
         return ck.finish()
     proofs_ok = ck.proof_status()
